@@ -356,6 +356,7 @@ def rule_key_generation(ctx, cfg='prod-all'):
             in_loop = bool(loops)
             prim = False
             shape = False
+            tested_other = False
             for h, bl in loops:
                 for x in bl:
                     tt = b.blocks[x]['term']
@@ -368,10 +369,16 @@ def rule_key_generation(ctx, cfg='prod-all'):
                             if 'PartialEq' in (g2.what or '') and g2.args and g2.args[0]['k'] in ('copy', 'move') and not g2.args[0]['pl'].get('p'):
                                 oc = origin_call(zf, g2.args[0]['pl']['l'])
                                 if oc is not None and (oc.get('callee') or '').endswith('is_probably_prime'):
-                                    prim = True
+                                    # the number tested is the candidate of THIS search (built from this random_prime call), not another prime
+                                    from flow import draw_sites
+                                    ds = draw_sites(eng, fd, oc['args'][0]) if oc['args'] else set()
+                                    if any(bj == bi for (_ln, _c, bj) in ds):
+                                        prim = True
+                                    else:
+                                        tested_other = True
             yield Ob('RF-Q', '%s#search[%d]:loop-exit' % (ekey, k), in_loop and prim,
                      "the search loop is left only after is_probably_prime(candidate) != No", '%s L%s' % (b.file(), t['line']),
-                     fact={'context': ctxname, 'in_loop': in_loop, 'exit_compares_is_probably_prime': prim}, expected='true')
+                     fact={'context': ctxname, 'in_loop': in_loop, 'exit_compares_is_probably_prime_of_this_candidate': prim, 'exit_tests_a_different_number': tested_other}, expected='true')
             yield Ob('RF-Q', '%s#search[%d]:safe-prime-shape' % (ekey, k), shape, "the tested candidate is 2 * p' + 1 with p' from the CSPRNG", '%s L%s' % (b.file(), t['line']),
                      fact={'context': ctxname, 'shape': shape}, expected=True)
             term = lift_term(ctx, cfg, fr, zf.term_op(t['args'][0]))
